@@ -314,7 +314,19 @@ def _exc_info(ex, st, args, kwargs, text):
     if not st.exc_stack:
         raise Exception("sys.exc_info() outside a handler")
     e = st.exc_stack[-1]
-    return [(st, ("val", V.mk_tuple([V.VType(C.cls_of(Val.ref(e))), e, V.fresh("tb")])))]
+    st = st.copy()
+    import types as _types
+    tb = st.alloc(_types.TracebackType)
+    deeper = V.fresh("tb_deeper")
+    st.assume(z3.And(V.is_obj(deeper), Val.ref(deeper) >= 0))
+    # tb_next is None exactly when the exception was raised in the handling frame itself (by the call instruction, for
+    # an exception coming out of a call: the callee's body never ran)
+    st.write(Val.ref(tb), "tb_next", z3.If(raised_at_call(Val.ref(e)), V.VNone, deeper))
+    return [(st, ("val", V.mk_tuple([V.VType(C.cls_of(Val.ref(e))), e, tb])))]
+
+
+raised_at_call = z3.Function("raised_at_call", z3.IntSort(), z3.BoolSort())
+FIELDS.declare("builtins.traceback", "tb_next")
 
 
 @TABLE.register("traceback.format_exception")
@@ -438,6 +450,7 @@ def _env_call(ex, st, f, argv, kw, text, base=Exception):
     e = ex.env_exc(s_ex, base)
     be = V.fresh("bind_err", z3.BoolSort())
     s_ex.assume(z3.Implies(be, C.exact(C.cls_of(Val.ref(e)), TypeError)))
+    s_ex.assume(raised_at_call(Val.ref(e)) == be)       # binding failed <=> no frame of the callee in the traceback
     s_ex.ghost["env_kind"] = z3.IntVal(1)
     s_ex.ghost["env_val"] = e
     s_ex.ghost["bind_err"] = be
